@@ -651,8 +651,18 @@ func Rand(fn parser.Function, args []value.Primary, _ *option.Flags) (value.Prim
 	if high <= low {
 		return nil, NewFunctionInvalidArgumentError(fn, fn.Name, "the second argument must be greater than the first argument")
 	}
-	delta := high - low + 1
-	return value.NewInteger(r.Int63n(delta) + low), nil
+	// The number of candidates can exceed the maximum of int64, so it is counted as an unsigned integer.
+	// 0 means that every integer is a candidate.
+	delta := uint64(high-low) + 1
+	if 0 < delta && delta <= math.MaxInt64 {
+		return value.NewInteger(r.Int63n(int64(delta)) + low), nil
+	}
+	for {
+		n := r.Uint64()
+		if delta == 0 || n < delta {
+			return value.NewInteger(low + int64(n)), nil
+		}
+	}
 }
 
 func execStrings1Arg(fn parser.Function, args []value.Primary, stringsf func(string) string) (value.Primary, error) {
